@@ -28,6 +28,7 @@ var ruleGroups = map[string]func(*Ctx){
 	"R1": rulesStatus, "R2": rulesStatus,
 	"G1": rulesLife, "G3": rulesLife, "G4": rulesLife, "G5": rulesLife, "G6": rulesLife,
 	"X1": rulesTransport, "X2": rulesTransport, "X3": rulesTransport, "W1": rulesTransport,
+	"I6": rulesExtra, "T2": rulesExtra, "P4": rulesExtra, "B4": rulesExtra, "B5": rulesExtra,
 	"M1": rulesAddr, "M2": rulesAddr, "M3": rulesAddr, "D2": rulesAddr,
 }
 
@@ -81,31 +82,31 @@ var commonAssumptions = []string{
 }
 
 var propSpecs = map[string]*propSpec{
-	"C01": {ID: "C01", Rules: rr("I1", "I2", "I3", "I4"), Controls: []string{"I4", "I2"},
+	"C01": {ID: "C01", Rules: rr("I1", "I2", "I3", "I4", "I6"), Controls: []string{"I4", "I2"},
 		Explanation: "Repo-side necessary conditions of order-independence: every index implementation computes its view from the log's total order only (I1: Values(), never GetEntries/Heads/Iterator/the incremental argument), the last-writer-wins scan is coherent (I2: scan direction vs first-seen guard; tested, marked and written key identical by normal form), store and index agree on the opcode table (I3), and every route that changes the log (write path, three merge sites) refreshes the view before reporting success (I4).",
 		NotDecided:  "that Join is set union and Values() a deterministic total order (CRDT inside go-ipfs-log); actual delivery orders."},
 	"C02": {ID: "C02", Rules: cat(rr("W1", "L2", "P3"), []ruleRef{only("P2", "_localHeads", "Get(", "anchor")}), Controls: []string{"P3"},
 		Explanation: "Wiring needed for eventual delivery: a peer joining the topic reaches the head exchange, which sends the cached heads under the store's own address on its success path (W1); the key the write path persists is the one the exchange and the load path read (P2); fetched entries' next links are queued (L2); and the persisted local head covers every acknowledged write because Append and the persisting Put share a critical section (P3).",
 		NotDecided:  "liveness itself: fault sequences, retries, pubsub behaviour, fetchability of blocks."},
-	"C03": {ID: "C03", Rules: rr("A1", "A2", "A3", "A4"), Controls: []string{"A1"},
+	"C03": {ID: "C03", Rules: rr("A1", "A2", "A3", "A4", "T2"), Controls: []string{"A1"},
 		Explanation: "For all access-controller implementations: every accepting path of CanAppend passes a successful write-list membership comparison and an identity verification whose result is used (A1); that verification is not a constant accept (A2, derived from the dependency); the signing key is bound to the named identity (A3); every log is constructed with the store's controller and database id, is mutated only through Append/Join, and the controller and store type come from the manifest at the address root (A4).",
 		NotDecided:  "cryptographic soundness of signatures; that the dependency's Join/Append call CanAppend and Verify for every new entry (read once, DF6)."},
-	"C04": {ID: "C04", Rules: rr("T1", "A4"), Controls: []string{"T1"},
+	"C04": {ID: "C04", Rules: rr("T1", "A4", "T2"), Controls: []string{"T1"},
 		Explanation: "Interprocedural field-based taint from every read of a decoded MessageExchangeHeads.Heads to log constructors, entry maps and Join: no entry object received from the network reaches a log except through its content address (T1); logs are only built with the store's access controller and id and only mutated through Append/Join (A4).",
 		NotDecided:  "the dependency's signature check and log-id filter inside Join; hash collision resistance."},
-	"C05": {ID: "C05", Rules: cat(rr("P1"), []ruleRef{except("P2", "snapshot", "queue")}), Controls: []string{"P1"},
+	"C05": {ID: "C05", Rules: cat(rr("P1", "P4"), []ruleRef{except("P2", "snapshot", "queue")}), Controls: []string{"P1"},
 		Explanation: "Ordering of persistence effects on every path: Append → cache Put (error tested, failing branch leaves) → successful return; Join → Put of merged heads (error tested) → EventReplicated (P1); the keys written by those paths and the manifest marker are read back under the same names by the load path, the exchange and the local-presence test, and both head sets read by the load path feed the fetch (P2).",
 		NotDecided:  "durability of leveldb/IPFS writes; the state recovered from each crash prefix (needs CRDT semantics)."},
-	"C06": {ID: "C06", Rules: []ruleRef{only("I1", "kvstore"), only("I2", "kvstore"), only("I3", "kvstore"), {Rule: "I4"}}, Controls: []string{"I2"},
+	"C06": {ID: "C06", Rules: []ruleRef{only("I1", "kvstore"), only("I2", "kvstore"), only("I3", "kvstore"), {Rule: "I4"}, only("I6", "kvstore")}, Controls: []string{"I2"},
 		Explanation: "Key-value index: view computed from Values() only (I1); descending scan with a first-seen guard whose tested, marked and written key are the same expression, PUT stores and DEL deletes (I2, I3); every log change refreshes the view (I4).",
 		NotDecided:  "that the total order extends happens-before (dependency clocks)."},
-	"C07": {ID: "C07", Rules: []ruleRef{only("I1", "documentstore"), only("I2", "documentstore"), only("I3", "documentstore"), {Rule: "I4"}, {Rule: "D2"}}, Controls: []string{"I2"},
+	"C07": {ID: "C07", Rules: []ruleRef{only("I1", "documentstore"), only("I2", "documentstore"), only("I3", "documentstore"), {Rule: "I4"}, {Rule: "D2"}, only("I6", "documentstore")}, Controls: []string{"I2"},
 		Explanation: "Document index: as C06 for PUT, DEL and every member of PUTALL (I1–I3), view refreshed on every change (I4); Delete reaches the append only through a presence test whose absent branch leaves with an error (D2).",
 		NotDecided:  "Get's matching options and Query (string semantics, caller predicates)."},
-	"C08": {ID: "C08", Rules: []ruleRef{only("I1", "eventlogstore", "basestore"), {Rule: "I5"}},
+	"C08": {ID: "C08", Rules: []ruleRef{only("I1", "eventlogstore", "basestore"), {Rule: "I5"}, only("I6", "eventlogstore", "basestore")},
 		Explanation: "Event log listing is the log's total order (I1 for the event and base index); the slice the query reverses in place is freshly built by the installed index on every call (I5).",
 		NotDecided:  "append-only/stability (dependency); exact windows (integer arithmetic over positions and amounts: a solver/symbolic problem, another technique family)."},
-	"C09": {ID: "C09", Rules: rr("B1", "B2"), Controls: []string{"B1"},
+	"C09": {ID: "C09", Rules: rr("B1", "B2", "B4", "B5"), Controls: []string{"B1"},
 		Explanation: "Every subscription to store-scoped event types on a bus that may be the instance-wide one either filters by the event's database address before any effect, or is made on a bus private to the store (B1); both receive paths route a heads message by the address it names before Sync (B2).",
 		NotDecided:  "interference through the shared IPFS node or the pubsub router."},
 	"C10": {ID: "C10", Rules: []ruleRef{{Rule: "L1"}, only("Q1", "rejected-join"), {Rule: "I4"}}, Controls: []string{"L1"},
